@@ -78,7 +78,7 @@ def check(chk, tier, seed):
     work = os.path.join(chk.BUILD, "tmp", "c20-%d" % os.getpid()); os.makedirs(work, exist_ok=True)
     def one(sub):
         w = os.path.join(work, sub); os.makedirs(w, exist_ok=True); out = os.path.join(w, "stats.json")
-        rc, so_, se_ = worker(chk, so, dump, ["--seed", str(seed), "--count", str(count if sub != "containers" else count * 2), "--out", out, "--work", w, "--only", sub])
+        rc, so_, se_ = worker(chk, so, dump, ["--seed", str(seed), "--count", str(count if sub != "containers" else count * 2), "--out", out, "--work", w, "--only", sub] + (["--budget", os.environ.get("VERIF_THOROUGH_BUDGET_S", "900")] if tier == "thorough" else []))
         return sub, rc, se_, out, w
     layout_fields = 0
     with concurrent.futures.ThreadPoolExecutor(7) as ex:
